@@ -46,6 +46,10 @@ class Register:
             )
         if isinstance(size, (int, float)) and (size != int(size) or size < 1):
             raise JaqalError(f"Invalid size {size} for register {name}.")
+        if isinstance(size, AnnotatedValue) and size.kind == ParamType.FLOAT:
+            raise JaqalError(
+                f"Cannot size register {name} with {size.name} of non-integer kind {size.kind}."
+            )
         self._alias_from = alias_from
         self._alias_slice = alias_slice
         if alias_slice is not None:
